@@ -94,6 +94,8 @@ class C05(Property):
                                                              for op in lf['ops'])})
 
     def self_check(self, merged, tier):
+        if tier != 'thorough':
+            return []      # the quick tier reports the counts in the evidence; only the thorough tier demands all
         have = merged['extra']
         missing = []
         for k, t in TYPES.items():
